@@ -66,3 +66,6 @@ func goid() int64 {
 	}
 	return id
 }
+
+// Goid is the id of the calling goroutine.
+func Goid() int64 { return goid() }
